@@ -66,6 +66,11 @@ def run(ctx):
             ctx.violation(v.bad, keep, "PartitionProp clause %s broken (history / concurrent splits) at trace line %d: %s" % (v.bad, v.line, ev[:400]))
     # the statement's series identity is (name, tag set, source); the map's is (name, a string built from tags and source): pairs of
     # triples that spell the same string (finding 19, recorded)
+    tk = "SPECIFICATION Spec\nCONSTANT Escape = %s\nINVARIANT InjectiveNow\nCHECK_DEADLOCK FALSE\n"
+    bad = ctx.tlc_check("TagsKey", ctx.write_cfg("TagsKey.code.cfg", tk % "FALSE"), label="the tags key as the code builds it is injective (must fail: finding 19)", must_pass=False)
+    if bad.violated != "InjectiveNow":
+        raise vlib.MachineryError("TagsKey.tla: the code's key format was not shown to collide (%s)" % bad.violated)
+    ctx.tlc_check("TagsKey", ctx.write_cfg("TagsKey.esc.cfg", tk % "TRUE"), label="an escaping key format is injective")
     out = ctx.path("out-identity.json")
     rc, txt, wall = ctx.go_test("c06", run="TestIdentity", env={"VERIF_OUT": out})
     if rc != 0 or not os.path.exists(out):
